@@ -191,11 +191,11 @@ func scopeMatrix(emit func([]string)) {
 }
 
 func (P) Gen(r *core.Rand, tier string, emit func([]string)) {
-	n := 400
+	n := 1500
 	if tier == "thorough" {
-		n = 12000
-		scopeMatrix(emit)
+		n = 40000
 	}
+	scopeMatrix(emit)
 	for i := 0; i < n; i++ {
 		emit(genCase(r, 5, 4))
 	}
